@@ -3,6 +3,7 @@ CONSTANTS ND = 1
  MaxIn = 2
  Pinned = FALSE
  DoCleanup = TRUE
+ AtExit = TRUE
  CheckWait = TRUE
  Buffered = TRUE
  ExclTmp = TRUE
